@@ -118,11 +118,17 @@ func (w *watchers) handlersCore() []*hdlr {
 	cmChange := func(o client.Object) {
 		cm := o.(*api.ConfigMap)
 		key := cm.Namespace + "/" + cm.Name
+		data := cm.Data
+		if data == nil {
+			// a configmap without data is a change to an empty
+			// configuration, nil would mean that nothing was changed
+			data = map[string]string{}
+		}
 		switch key {
 		case w.cfg.ConfigMapName:
-			w.ch.GlobalConfigMapDataNew = cm.Data
+			w.ch.GlobalConfigMapDataNew = data
 		case w.cfg.TCPConfigMapName:
-			w.ch.TCPConfigMapDataNew = cm.Data
+			w.ch.TCPConfigMapDataNew = data
 		}
 	}
 	return []*hdlr{
